@@ -64,7 +64,7 @@ def random_query(rng, gd, max_size=2, with_conditions=False, allow_empty_x=False
 
 
 CALL_FORMS = ("outcomes", "identify", "from_expression", "from_parts", "from_str", "single",
-              "outcomes-seq", "outcomes-iter", "from_parts-iter", "raw-graph")
+              "outcomes-seq", "outcomes-iter", "from_parts-iter", "raw-graph", "outcomes-kw")
 
 
 def raw_graph(g):
@@ -110,6 +110,12 @@ def call_id(g, q, form, prop=None):
     if form == "outcomes":
         kernel.count("callform:" + form)
         return identify_outcomes(g, X, Y, Z) if Z else identify_outcomes(g, X, Y)
+    if form == "outcomes-kw":
+        # every argument by keyword, in another order (as y0's own estimation module calls it)
+        kernel.count("callform:" + form)
+        if Z:
+            return identify_outcomes(conditions=Z, outcomes=Y, graph=g, treatments=X)
+        return identify_outcomes(outcomes=Y, graph=g, treatments=X)
     if form == "raw-graph":
         kernel.count("callform:" + form)
         try:
